@@ -39,7 +39,7 @@ VARIANTS = {
     's':   ('gcc',   BASE + ['-O1', '-DSLU_MT_VERIF', '-Dexit=vf_lib_exit'] + ASAN + ALLOC_RENAMES + PTHREAD_RENAMES),
     'sf':  ('gcc',   BASE + ['-O2', '-DSLU_MT_VERIF', '-Dexit=vf_lib_exit'] + ALLOC_RENAMES + PTHREAD_RENAMES),
     # Engine S race build: clang TSan *instrumentation only*, linked against our own runtime
-    'sr':  ('clang', BASE + ['-O1', '-DSLU_MT_VERIF', '-fsanitize=thread', '-mllvm', '-tsan-distinguish-volatile=1']
+    'sr':  ('clang', BASE + ['-O1', '-DSLU_MT_VERIF', '-Dexit=vf_lib_exit', '-fsanitize=thread', '-mllvm', '-tsan-distinguish-volatile=1']
                      + ALLOC_RENAMES + PTHREAD_RENAMES),
     # Engine P: guard ON, real scheduler functions called from the explicit-state search
     'p':   ('gcc',   BASE + ['-O2', '-DSLU_MT_VERIF'] + ALLOC_RENAMES + PTHREAD_RENAMES),
